@@ -174,7 +174,7 @@ def gen_cases(chk):
         add("feature_padded", label, STY_PADDED, lib)
         if not quick or rng.random() < 0.5:
             add("feature_styled", label, gen_style(rng, lib), lib)
-    nlib, nsty = (260, 3) if quick else (3000, 8)
+    nlib, nsty = (260, 3) if quick else (2000, 6)
     for i in range(nlib):
         ver = rng.choice([None, 53, 54, 55, 56, 57, 58])
         lib = gen_lib(rng, ver, "plain" if i % 3 == 0 else "mixed")
